@@ -39,6 +39,7 @@ fn main() {
         "wrathhdr" => cipher::run_wrathhdr(&args),
         "hdrio" => cipher::run_hdrio(&args),
         "halves" => cipher::run_halves(&args),
+        "hdradv" => cipher::run_hdradv(&args),
         m => {
             eprintln!("wsh: unknown mode {}", m);
             std::process::exit(2)
